@@ -305,6 +305,34 @@ def run(ctx, repo):
                     continue
             if isinstance(v, ast.Call) and call_name(v) == 'int':
                 ctx.ok('R4', 'get_distance: %s scales before truncating' % unparse(v))
+    if n_unit < 5:
+        # the units are not written as returns of a chain (lookup tables ...): decided on the folded function over the unit suffixes it
+        # knows - one unit and two and a half units of each: the fraction must survive the scaling
+        from .. import fold as _foldu
+        try:
+            uenv_, ufolder_ = repo.folded('athlib/utils.py')
+            gd_fc_ = uenv_.get('get_distance')
+            def _gd(code):
+                try:
+                    return _foldu.Folder(importer=ufolder_.importer).call(gd_fc_, [code], {})
+                except Exception:
+                    return None
+            n_unit = 0
+            for sfx in ('m', 'k', 'K', 'km', 'M', 'Mi', 'MI', 'MT', 'Y', 'y', 'YD', 'yd'):
+                one = _gd('1' + sfx)
+                if not isinstance(one, (int, float)) or one < 1:
+                    continue
+                n_unit += 1
+                two_half = _gd('2.5' + sfx)
+                unit = _gd('1000' + sfx)
+                if isinstance(unit, (int, float)) and two_half != int(2.5 * unit / 1000.0) and two_half != int(round(2.5 * unit / 1000.0, 6)):
+                    ctx.finding('R4', 'athlib/utils.py::get_distance::unit %s truncates the quantity' % sfx, 'athlib/utils.py', gd.lineno,
+                                'get_distance(%r) is %r but 1000 units are %r m: the fraction of the quantity is dropped before the scaling, so N.d%s '
+                                'spellings are graded as a shorter distance' % ('2.5' + sfx, two_half, unit, sfx), '2.5' + sfx)
+                else:
+                    ctx.ok('R4', 'get_distance: the unit %s keeps the fraction of the quantity (folded)' % sfx)
+        except Exception as e_:
+            ctx.info('get_distance is not foldable (%s); unit scaling not decided by folding' % e_)
     ctx.floor('unit arms of get_distance', n_unit, 5)
     # ---- R5 a neighbour without a distance (the field row before "50", or a code get_distance cannot read) is an end of the table
     want = {'lo': 'hi', 'hi': 'lo'}
